@@ -28,13 +28,45 @@ KEY_HANG = "crash-or-deadlock"
 
 
 # --------------------------------------------------------------------------- program representation
-# case  = {"n","w","du","phases":[phase]}
+# case  = {"n","w","du","phases":[phase]}      "du": one displacement unit for all ranks (int) or one per rank (list)
 # phase = {"kind": "X"|"S"|"F"|"N", "ranks": [[item]]}     item = ("epoch", t, [item]) | ("call", call) | ("wait", usec)
 #                                                           | ("flush", t);   F phases carry "fa": (assert1, assert2)
 # call  = {"k": put|get|acc|gacc|fop|cas, "t", "idx", "n", "op", "vals", "cmp", "new"}   (idx = int index in the window)
 
 def disp_of(du, idx):
     return idx * 4 // du
+
+
+def dus_of(case):
+    """the disp_unit every rank passes to MPI_Win_create (MPI lets each rank choose its own)"""
+    du = case["du"]
+    return list(du) if isinstance(du, (list, tuple)) else [du] * case["n"]
+
+
+def du_token(case):
+    du = case["du"]
+    return ",".join(map(str, du)) if isinstance(du, (list, tuple)) else str(du)
+
+
+def boundary_access(rng, w, du, single):
+    """an access placed on purpose at the end of the window (the range check and the address computation are only
+    exercised at their boundary by such accesses): -> (idx, cnt) or None
+      whole   displacement 0, count == window size        tail   idx > 0, idx + count == window size
+      last    the last element only                       single = the call moves one element (Fetch_and_op, CAS)"""
+    step = 2 if du == 8 else 1
+    shape = rng.choice(["whole", "tail", "last", "whole"])
+    if single:
+        shape = "last"
+    if shape == "whole":
+        return 0, w
+    if shape == "tail":
+        idx = rng.below(w)
+        idx -= idx % step
+        return idx, w - idx
+    idx = w - 1
+    if idx % step:
+        return (idx - 1, 2) if not single else None     # the last element is not addressable with this unit
+    return idx, 1
 
 
 def orders_count(sizes):
@@ -82,6 +114,10 @@ def gen_epoch_calls(rng, n, w, du, t, initvals, with_waits, allow_cas=True):
             idx -= idx % 2
         if idx + cnt > w:
             cnt = w - idx
+        if rng.chance(1, 4):
+            b = boundary_access(rng, w, du, kind in ("fop", "cas"))
+            if b:
+                idx, cnt = b
         cells = list(range(idx, idx + cnt))
         op = rng.choice(OPS) if kind in ("acc", "gacc", "fop") else None
         if kind == "fop" and rng.chance(1, 4):
@@ -121,7 +157,7 @@ def gen_epoch_calls(rng, n, w, du, t, initvals, with_waits, allow_cas=True):
     return items
 
 
-def gen_X(rng, n, w, du, initvals):
+def gen_X(rng, n, w, dus, initvals):
     contended = rng.chance(2, 3)
     hot = rng.below(n)
     with_waits = rng.chance(1, 2)
@@ -138,7 +174,7 @@ def gen_X(rng, n, w, du, initvals):
                     items.append(("wait", rng.choice([1, 10, 100, 300])))
                 elif rng.chance(1, 5):
                     items.append(("wait", rng.choice([1, 30, 120])))
-                calls = gen_epoch_calls(rng, n, w, du, t, initvals, with_waits, allow_cas)
+                calls = gen_epoch_calls(rng, n, w, dus[t], t, initvals, with_waits, allow_cas)
                 if calls:
                     items.append(("epoch", t, calls))
             ranks.append(items)
@@ -147,15 +183,17 @@ def gen_X(rng, n, w, du, initvals):
             return {"kind": "X", "ranks": ranks}
 
 
-def gen_SF(rng, kind, n, w, du, initvals, opened):
+def gen_SF(rng, kind, n, w, dus, initvals, opened):
     """lock_all or fence phase: cells of every target get a class; calls respect the classes, so that the program is
     race-free in MPI's sense (conflicts only between same-operator accumulate-family calls, or between CAS)."""
-    step = 2 if du == 8 else 1
     cls = {}
     for t in range(n):
+        du = dus[t]
         i = 0
         while i < w:
             seg = min(w - i, rng.choice([1, 1, 2, 3]))
+            if rng.chance(1, 6):
+                seg = w - i                  # a segment up to the end of the window (the whole window when i == 0)
             if du == 8 and seg % 2 == 1:
                 seg = min(w - i, seg + 1)
             k = rng.below(10)
@@ -177,7 +215,7 @@ def gen_SF(rng, kind, n, w, du, initvals, opened):
             for _ in range(rng.choice([0, 1, 2, 2, 3])):
                 t = rng.below(n)
                 idx = rng.below(w)
-                if du == 8:
+                if dus[t] == 8:
                     idx -= idx % 2
                 c = cls[(t, idx)]
                 seg0, seglen = c[-2], c[-1]
@@ -186,6 +224,16 @@ def gen_SF(rng, kind, n, w, du, initvals, opened):
                         continue
                     mode = c[2]
                     cnt = min(rng.choice([1, 2, 3]), seg0 + seglen - idx)
+                    if rng.chance(1, 3):
+                        # boundary: the whole segment (= the whole window / up to its last element for such segments),
+                        # or the last element(s) of the segment
+                        if rng.chance(1, 2):
+                            idx, cnt = seg0, seglen
+                        else:
+                            cnt = 2 if (dus[t] == 8 and seglen >= 2 and (seg0 + seglen) % 2 == 0) else 1
+                            idx = seg0 + seglen - cnt
+                            if dus[t] == 8 and idx % 2:
+                                idx, cnt = seg0, seglen
                     if mode == "put":
                         if any((t, j) in done_put for j in range(idx, idx + cnt)):
                             continue
@@ -201,7 +249,10 @@ def gen_SF(rng, kind, n, w, du, initvals, opened):
                     op = c[1]
                     if kk == "fop" and rng.chance(1, 5):
                         op = "noop"
-                    call = gen_call_on(rng, kk, t, idx, 1, op)
+                    cnt = 1
+                    if kk != "fop" and rng.chance(1, 4):
+                        idx, cnt = seg0, seglen      # the whole shared-accumulate segment
+                    call = gen_call_on(rng, kk, t, idx, cnt, op)
                 else:
                     call = gen_call_on(rng, "cas", t, idx, 1, None, [initvals(t, idx), 11, 22])
                 items.append(("call", call))
@@ -218,23 +269,28 @@ def gen_SF(rng, kind, n, w, du, initvals, opened):
             return ph
 
 
-def gen_N(rng, n, w, du):
+def gen_N(rng, n, w, dus):
     ranks = [[] for _ in range(n)]
     r = rng.below(n)
     for _ in range(rng.range(1, 2)):
         kind = rng.choice(["put", "get", "acc", "fop", "cas"])
         idx = rng.below(w)
-        if du == 8:
+        t = rng.below(n)
+        if dus[t] == 8:
             idx -= idx % 2
-        ranks[r].append(("call", gen_call_on(rng, kind, rng.below(n), idx, 1, rng.choice(OPS))))
+        ranks[r].append(("call", gen_call_on(rng, kind, t, idx, 1, rng.choice(OPS))))
     return {"kind": "N", "ranks": ranks}
 
 
 def gen_case(rng):
     n = rng.range(2, 4)
-    w = rng.choice([4, 6, 8, 12])
+    w = rng.choice([4, 6, 8, 12, 1, 2, 3, 5])          # incl. one-element windows (a counter) and odd sizes
     du = rng.choice([4, 4, 4, 1, 8])
+    if rng.chance(1, 2):
+        # every rank passes its own disp_unit to MPI_Win_create: displacements are scaled by the TARGET's unit
+        du = [rng.choice([4, 1, 8]) for _ in range(n)]
     case = {"n": n, "w": w, "du": du, "phases": []}
+    du = dus_of(case)
     opened = 0
     # the generator tracks a *guess* of the memory only to choose interesting CAS compare values
     guess = lambda t, i: 1000 * (t + 1) + i
@@ -250,14 +306,16 @@ def gen_case(rng):
         else:
             ph = gen_N(rng, n, w, du)
         case["phases"].append(ph)
-    if rng.chance(1, 12):
-        # malformed stream: one call whose count exceeds the window (must fail with MPI_ERR_RMA_RANGE, no effect)
-        ph = case["phases"][0]
-        if ph["kind"] in ("S", "F"):
+    if rng.chance(1, 8):
+        # malformed stream: one call whose count exceeds the window, mostly by ONE element (must fail with
+        # MPI_ERR_RMA_RANGE on both sides and leave the memory alone), in the first lock_all / fence phase
+        sf = [ph for ph in case["phases"] if ph["kind"] in ("S", "F")]
+        if sf:
+            ph = sf[0]
             r = rng.below(n)
-            cnt = w + rng.range(1, 3)
-            ph["ranks"][r].append(("call", gen_call_on(rng, rng.choice(["put", "get", "acc"]), rng.below(n), 0, cnt,
-                                                       "sum")))
+            cnt = w + rng.choice([1, 1, 1, 2, 3])
+            kind = rng.choice(["put", "get", "acc", "gacc"])
+            ph["ranks"][r].append(("call", gen_call_on(rng, kind, rng.below(n), 0, cnt, "sum")))
             case["malformed"] = True
     return case
 
@@ -277,8 +335,8 @@ def assign_ids(case, base):
     return k
 
 
-def call_script(du, c):
-    d = disp_of(du, c["idx"])
+def call_script(dus, c):
+    d = disp_of(dus[c["t"]], c["idx"])
     k = c["k"]
     if k == "put":
         return "put %d %d %d %d %s" % (c["id"], c["t"], d, c["n"], " ".join(map(str, c["vals"])))
@@ -291,8 +349,8 @@ def call_script(du, c):
     return "cas %d %d %d %d %d" % (c["id"], c["t"], d, c["cmp"], c["new"])
 
 
-def call_query(du, c):
-    d = disp_of(du, c["idx"])
+def call_query(dus, c):
+    d = disp_of(dus[c["t"]], c["idx"])
     k = c["k"]
     if k == "put":
         return "put %d %d %d %d %s" % (c["id"], c["t"], d, c["n"], " ".join(map(str, c["vals"])))
@@ -307,8 +365,8 @@ def call_query(du, c):
 
 def emit_script(case, dump_base):
     """-> (lines, [dump id per phase])"""
-    du = case["du"]
-    out = ["W %d %d" % (case["w"], du)]
+    du = dus_of(case)
+    out = ["W %d %s" % (case["w"], du_token(case))]
     dumps = []
     for pi, ph in enumerate(case["phases"]):
         kind = ph["kind"]
@@ -343,8 +401,8 @@ def emit_script(case, dump_base):
 
 
 def phase_query(case, ph, before):
-    du = case["du"]
-    toks = ["ph", ph["kind"], str(case["n"]), str(case["w"]), str(du), "M"]
+    du = dus_of(case)
+    toks = ["ph", ph["kind"], str(case["n"]), str(case["w"]), du_token(case), "M"]
     for r in range(case["n"]):
         toks += [str(v) for v in before[r]]
     for r, items in enumerate(ph["ranks"]):
@@ -525,6 +583,121 @@ def corpus_cases():
     return cs
 
 
+def boundary_cases():
+    """deterministic boundary enumeration; runs first on every seed, after the corpus.
+    Window sizes 1 (a counter), 2, 5; the same disp_unit everywhere and three rotations of per-rank units 4 / 1 / 8; for
+    each: A whole-window Put / Accumulate / Get_accumulate (count == window size at displacement 0), B whole-window Get
+    from a remote rank and from oneself, C the last element only (Fetch_and_op / CAS / Put), C2 a Get / Get_accumulate
+    from displacement > 0 up to the last element (displacement + count == window size), D one element more than the
+    window holds (must be refused with MPI_ERR_RMA_RANGE, memory untouched).  The phase kinds rotate over exclusive
+    epochs, lock_all and fence."""
+    def call(k, t, idx, n=1, **kw):
+        c = {"k": k, "t": t, "idx": idx, "n": n}
+        c.update(kw)
+        return ("call", c)
+    n = 3
+    cs = []
+    j = 0
+
+    def phase(kind, percall):
+        """percall[r] = calls of origin r (each on one target)"""
+        if kind == "X":
+            ranks = [[("epoch", c[1]["t"], [c]) for c in calls] for calls in percall]
+        else:
+            ranks = [list(calls) for calls in percall]
+        ph = {"kind": kind, "ranks": ranks}
+        if kind == "F":
+            ph["fa"] = (0, 8)
+        return ph
+
+    for w in (1, 2, 5):
+        for du in (4, [4, 1, 8], [8, 4, 1], [1, 8, 4]):
+            dus = du if isinstance(du, list) else [du] * n
+            ok = lambda t, idx: (idx * 4) % dus[t] == 0
+            kinds = ["X", "S", "F"]
+            phases = []
+            vals = lambda r, m: [10 * (r + 1) + i + 100 * m for i in range(w)]
+            # A
+            wr = []
+            for r in range(n):
+                t = (r + 1) % n
+                k = ["put", "acc", "gacc"][(r + j) % 3]
+                kw = {"vals": vals(r, 0)}
+                if k != "put":
+                    kw["op"] = ["sum", "replace", "max"][(r + j) % 3]
+                wr.append([call(k, t, 0, w, **kw)])
+            phases.append(phase(kinds[j % 3], wr))
+            # B
+            phases.append(phase(kinds[(j + 1) % 3], [[call("get", (r + 2) % n, 0, w), call("get", r, 0, w)]
+                                                     for r in range(n)]))
+            # C
+            lc = []
+            for r in range(n):
+                t = (r + 1) % n
+                k = ["fop", "cas", "put"][(r + j) % 3]
+                if not ok(t, w - 1):
+                    lc.append([])
+                elif k == "fop":
+                    lc.append([call("fop", t, w - 1, 1, op="sum", vals=[5])])
+                elif k == "cas":
+                    lc.append([call("cas", t, w - 1, 1, cmp=1000 * (t + 1) + w - 1, new=33)])
+                else:
+                    lc.append([call("put", t, w - 1, 1, vals=[77])])
+            if any(lc):
+                phases.append(phase(kinds[(j + 2) % 3], lc))
+            # C2
+            tl = []
+            for r in range(n):
+                t = (r + 1) % n
+                idx = 2 if dus[t] == 8 else 1
+                if idx >= w:
+                    tl.append([])
+                elif (r + j) % 2:
+                    tl.append([call("gacc", t, idx, w - idx, op="noop", vals=[0] * (w - idx))])
+                else:
+                    tl.append([call("get", t, idx, w - idx)])
+            if any(tl):
+                phases.append(phase(kinds[j % 3], tl))
+            # D
+            bad = []
+            for r in range(n):
+                t = (r + 1) % n
+                k = ["get", "put", "acc", "gacc"][(r + j) % 4]
+                kw = {} if k == "get" else {"vals": vals(r, 1) + [9]}
+                if k in ("acc", "gacc"):
+                    kw["op"] = "sum"
+                bad.append([call(k, t, 0, w + 1, **kw)])
+            phases.append(phase(kinds[(j + 1) % 3], bad))
+            cs.append({"n": n, "w": w, "du": du, "phases": phases, "malformed": True})
+            j += 1
+    return cs
+
+
+def boundary_stats(case, st):
+    """what the generated stream reaches of the boundaries (reported in the coverage)"""
+    dus = dus_of(case)
+    w = case["w"]
+    if len(set(dus)) > 1:
+        st["programs_with_per_rank_disp_unit"] += 1
+    if w == 1:
+        st["programs_with_one_element_window"] += 1
+    for ph in case["phases"]:
+        for r, c in phase_calls(ph):
+            if c["n"] > w:
+                st["calls_past_the_end(malformed)"] += 1
+                if c["n"] == w + 1:
+                    st["calls_one_element_too_many(malformed)"] += 1
+                continue
+            if c["idx"] + c["n"] == w:
+                st["calls_ending_at_the_last_element"] += 1
+                if c["idx"] == 0:
+                    st["calls_spanning_the_whole_window"] += 1
+            if c["idx"] > 0 and dus[c["t"]] != dus[r] and c["t"] != r:
+                st["calls_at_disp>0_to_a_target_with_another_disp_unit"] += 1
+                if c["k"] in ("get", "gacc", "fop", "cas"):
+                    st["reads_at_disp>0_from_a_target_with_another_disp_unit"] += 1
+
+
 def single_phase_case(case, pi):
     return {"n": case["n"], "w": case["w"], "du": case["du"], "phases": [json.loads(json.dumps(case["phases"][pi]))]}
 
@@ -549,7 +722,7 @@ def run(ctx):
         "CAS cells are only used by CAS)",
         "simulated dates are fixed by --cfg=smpi/simulate-computation:no, so which serialisation the library realises is "
         "deterministic per program; the set of schedules explored is the one the generated waits produce",
-        "windows of MPI_INT, contiguous datatypes only"]
+        "windows of MPI_INT, contiguous datatypes only; all ranks expose windows of the same size (disp_unit is per rank)"]
     ctx.ensure_simgrid(["simgrid", "smpimain"])
     ctx.lean_prove()
     drv = ctx.lean_exe()
@@ -569,8 +742,15 @@ def run(ctx):
     if ctx.replay:
         cases = [fix_json(json.load(open(ctx.replay))["case"]["case"])]
     else:
-        cases = corpus_cases() + [gen_case(rng.fork(i)) for i in range(ncases)]
-    ncorpus = len(corpus_cases())
+        cases = corpus_cases() + boundary_cases() + [gen_case(rng.fork(i)) for i in range(ncases)]
+    ncorpus = len(corpus_cases()) + len(boundary_cases())
+    bstats = {k: 0 for k in ("programs_with_per_rank_disp_unit", "programs_with_one_element_window",
+                             "calls_past_the_end(malformed)", "calls_one_element_too_many(malformed)",
+                             "calls_ending_at_the_last_element", "calls_spanning_the_whole_window",
+                             "calls_at_disp>0_to_a_target_with_another_disp_unit",
+                             "reads_at_disp>0_from_a_target_with_another_disp_unit")}
+    for c in cases:
+        boundary_stats(c, bstats)
     # batches per rank count
     kinds, shapes = {}, {}
     verdict_by_key = {}
@@ -638,4 +818,4 @@ def run(ctx):
     ctx.cov["samples"] = [l for _, _, l in all_lines[:2]] + [l for _, _, l in all_lines[ncorpus + 3:ncorpus + 6]]
     ctx.cov["distribution"] = {"phase_kinds": kinds, "calls": shapes, "smpirun_runs": R.runs,
                                "monitor_failures_by_key": {str(k): v for k, v in verdict_by_key.items()},
-                               "programs": len(cases)}
+                               "programs": len(cases), "boundaries": bstats}
